@@ -85,6 +85,15 @@ def larger_configs(tier):
             cfgs.append({'decoder': 'BeliefPropagationOSDDecoder', 'code': name,
                          'size': list(size), 'code_def': vs[1][0], 'code_def_kw': vs[1][1],
                          'noise': 'Zbias', 'p': 0.03, 'dec_kwargs': bp})
+    # the Bayesian channel update between the Z and the X decoding is the one
+    # piece of decoder state that is rewritten on every call
+    bpu = {'max_bp_iter': 15, 'osd_order': 0, 'channel_update': True}
+    for cname, size, p in [('Toric2DCode', (3, 4), 0.08), ('Planar2DCode', (3, 3), 0.1),
+                           ('RotatedPlanar2DCode', (4, 4), 0.1), ('Toric3DCode', (2, 2, 3), 0.04),
+                           ('Color666PlanarCode', (1, 1), 0.15)]:
+        for noise in (('depol', 'Zbias') if tier != 'quick' else ('depol',)):
+            cfgs.append({'decoder': 'BeliefPropagationOSDDecoder', 'code': cname,
+                         'size': list(size), 'noise': noise, 'p': p, 'dec_kwargs': dict(bpu)})
     for size in [(4, 4), (3, 5)]:
         cfgs.append({'decoder': 'MatchingDecoder', 'code': 'Toric2DCode', 'size': list(size),
                      'noise': 'Zbias', 'p': 0.05})
